@@ -80,6 +80,7 @@ thread_local! {
 
 pub fn reset() {
     CTL.with(|c| *c.borrow_mut() = Ctl::new());
+    SIGS.with(|s| s.borrow_mut().clear());
 }
 
 pub fn with<R>(f: impl FnOnce(&mut Ctl) -> R) -> R {
@@ -91,6 +92,20 @@ pub fn new_owner(label: &str) -> usize {
         c.insts.push(None);
         c.labels.push(label.to_string());
         c.insts.len() - 1
+    })
+}
+
+thread_local! {
+    static SIGS: RefCell<Vec<Arc<tokio::sync::Notify>>> = RefCell::new(Vec::new());
+}
+
+pub fn sig(i: u8) -> Arc<tokio::sync::Notify> {
+    SIGS.with(|s| {
+        let mut s = s.borrow_mut();
+        while s.len() <= i as usize {
+            s.push(Arc::new(tokio::sync::Notify::new()));
+        }
+        s[i as usize].clone()
     })
 }
 
@@ -186,6 +201,7 @@ type BoxFut<'a, T> = Pin<Box<dyn Future<Output = T> + Send + 'a>>;
 /// A future that runs only on the controller's say-so.
 pub struct Controlled<'a, T> {
     owner: usize,
+    free: bool,
     entry_yield: bool,
     on_first: Option<Box<dyn FnOnce() + Send + 'a>>,
     on_cancel: Option<Box<dyn FnOnce() + Send + 'a>>,
@@ -203,12 +219,21 @@ impl<'a, T> Controlled<'a, T> {
     ) -> Self {
         Controlled {
             owner,
+            free: false,
             entry_yield,
             on_first,
             on_cancel,
             inner,
             inst: None,
         }
+    }
+}
+
+impl<'a, T> Controlled<'a, T> {
+    /// Free-running: the inner future is polled whenever the enclosing task is, with the real waker.
+    pub fn free(mut self, free: bool) -> Self {
+        self.free = free;
+        self
     }
 }
 
@@ -259,7 +284,9 @@ impl<'a, T> Future for Controlled<'a, T> {
                 f();
                 with(|c| c.current = prev);
             }
-            if this.entry_yield {
+            if this.free {
+                // never offered to the controller
+            } else if this.entry_yield {
                 inst.woken.store(true, SeqCst);
             } else {
                 inst.granted.store(true, SeqCst);
@@ -267,6 +294,19 @@ impl<'a, T> Future for Controlled<'a, T> {
             this.inst = Some(inst);
         }
         let inst = this.inst.as_ref().unwrap().clone();
+        if this.free {
+            let prev = with(|c| {
+                c.polls += 1;
+                std::mem::replace(&mut c.current, Some(this.owner))
+            });
+            let guard = PollGuard { prev, inst: inst.clone() };
+            let r = this.inner.as_mut().poll(cx);
+            drop(guard);
+            if r.is_ready() {
+                inst.done.store(true, SeqCst);
+            }
+            return r;
+        }
         if !inst.granted.swap(false, SeqCst) {
             *inst.tokio_waker.lock().unwrap() = Some(cx.waker().clone());
             return Poll::Pending;
